@@ -21,7 +21,10 @@ func init() {
 	register(&fw.Spec{
 		ID:    "C10",
 		Level: "exploration",
-		Rule: "case = one history of commands through NfcSession.DoAPDU with an SM session installed (suite x random keys x start counter incl. values about to wrap), every command drawn over ISO cases 1-4, odd/even INS, data lengths around block and 255/256/65535 boundaries, Ne in {0,1,..,65536}; each exchange is one evaluation: the chip-side reference must authenticate and decrypt the APDU to the intended command and both counters must agree afterwards; " +
+		Rule: "case = one history of commands through NfcSession.DoAPDU with an SM session installed (suite x random keys x start counter incl. values about to wrap), every command drawn over ISO cases 1-4, odd/even INS, data lengths around block and 255/256/65535 boundaries, Ne in {0,1,..,65536}; each exchange is one evaluation: the chip-side reference must authenticate and decrypt the APDU to the intended command and both counters must agree afterwards; genuine protected responses carry 9000, the status words the library or ISO 7816-4 name, and uniformly random ones; " +
+			"helpers| = one session on which the exported command helpers of NfcSession (GetChallenge, Internal/External/GeneralAuthenticate, MseSetAT, SelectMF/EF/Aid, ReadBinaryFromOffset, ReadFile) and DoAPDU are interleaved: every APDU of every call judged as above, the installed session object and its keys unchanged and counters equal after every call; " +
+			"buffers| = caller-owned slices (SetSSC input wiped / refilled / counted up at once or later, one slice used for two sessions, results of SSC()/KsEnc() overwritten, SetSSC on a running session); " +
+			"status| = the status word of the protected response on a three-exchange history (status alone, data + status, ordinary exchange): SW1 61..6F and 90 x SW2 00..FF with one suite each and the named ones with all suites (quick), all 65536 x 4 suites (thorough); " +
 			"non-trivial = every exchange; distinct = (suite, start counter class, command shape (ins parity, Nc, Ne), response status)",
 		MinEvaluations: 3000,
 		Assumptions: []string{
@@ -81,7 +84,7 @@ func c10History(c *fw.Ctx, k *fw.K, i int) {
 			}
 		}
 		respData = genRespData(r, j%5 == 2)
-		respSW = smSWs[r.IntN(len(smSWs))]
+		respSW = drawSW(r)
 		if cmd.ne > 0 && len(respData) > cmd.ne {
 			respData = respData[:cmd.ne]
 		}
@@ -203,4 +206,5 @@ func runC10(c *fw.Ctx) {
 		k.Nontrivial("")
 		c10History(c, k, i)
 	})
+	runC10More(c)
 }
